@@ -142,17 +142,24 @@ Fixpoint dedup (l : list bytes) : list bytes :=
   | x :: r => x :: filter (fun y => negb (eqb_bytes y x)) (dedup r)
   end.
 
-(** [storeInCache]; [exp] is the expiry [setCache] computes. *)
-Definition store_in_cache (exp : Z) (to_req resp : list hash) (c : cache) : cache :=
-  let c1 := fold_left (fun c p =>
+(** [storeInCache]; [exp] is the expiry [setCache] computes.  First the
+    received hashes grouped by prefix, then an empty entry for every requested
+    prefix that has none. *)
+Definition store_positive (exp : Z) (resp : list hash) (c : cache) : cache :=
+  fold_left (fun c p =>
       cset p {| c_expiry := exp;
                 c_hashes := filter (fun h => eqb_bytes (prefix_of h) p) resp |} c)
-    (dedup (map prefix_of resp)) c in
+    (dedup (map prefix_of resp)) c.
+
+Definition store_negative (exp : Z) (to_req : list hash) (c : cache) : cache :=
   fold_left (fun c h =>
       match cget (prefix_of h) c with
       | None => cset (prefix_of h) {| c_expiry := exp; c_hashes := [] |} c
       | Some _ => c
-      end) to_req c1.
+      end) to_req c.
+
+Definition store_in_cache (exp : Z) (to_req resp : list hash) (c : cache) : cache :=
+  store_negative exp to_req (store_positive exp resp c).
 
 (** [getQuestion] *)
 Definition question (suffix : bytes) (hs : list hash) : bytes :=
